@@ -188,7 +188,60 @@ def _rebuild(g, sub):
     raise NotImplementedError(type(g))
 
 
-STANDINS = [standin_sweeps, standin_resolution]
+def standin_resolve_after_edits(tier, seed):
+    """parameter queries and resolution stay right along edit histories of a circuit (cached is_parameterized / parameter_names):
+    after every edit, resolving the edited circuit equals resolving a circuit rebuilt from its moments, leaves no symbol behind,
+    and parameter_names agrees with the rebuilt circuit.  Uses the C05 edit-history driver (all public mutators, copies, +, radd)."""
+    import random
+
+    import cirq
+    import sympy
+
+    from contracts import C05_history as H
+
+    rng = random.Random(seed + 17)
+    n = 150 if tier == "quick" else 2500
+    ops = H._alphabet()
+    res = cirq.ParamResolver({"s": 0.5, "t": 0.25})
+    cases, fails = 0, []
+    for h in range(n):
+        start = rng.choices(ops, k=rng.randrange(0, 4))
+        c = cirq.Circuit(start)
+        hist = [f"c = Circuit({start!r})"]
+        for step in range(rng.randrange(1, 6)):
+            if rng.random() < 0.5:
+                _ = cirq.is_parameterized(c), cirq.parameter_names(c)  # a query fills the caches
+                hist.append("query is_parameterized / parameter_names")
+            method = rng.choice(H.METHODS)
+            try:
+                c, desc, _err = H._step(c, rng, method, ops)
+            except Exception:
+                break
+            hist.append(desc)
+            cases += 1
+            rebuilt = cirq.Circuit(c.moments)
+            why = None
+            try:
+                r1, r2 = cirq.resolve_parameters(c, res), cirq.resolve_parameters(rebuilt, res)
+                if cirq.parameter_names(c) != cirq.parameter_names(rebuilt) or cirq.is_parameterized(c) != cirq.is_parameterized(rebuilt):
+                    why = f"parameter_names / is_parameterized of the edited circuit ({sorted(cirq.parameter_names(c))}) differ from a circuit rebuilt from its moments ({sorted(cirq.parameter_names(rebuilt))})"
+                elif r1 != r2:
+                    why = "resolving the edited circuit differs from resolving a circuit rebuilt from its moments"
+                elif cirq.is_parameterized(cirq.Circuit(r1.moments)):
+                    why = "a symbol is left in the resolved circuit"
+            except Exception as ex:
+                why = f"resolve_parameters raised {ex!r}"
+            if why:
+                fails.append(dict(args=dict(history=hist), failed="resolve-after-edit", clause=why))
+                break
+        if len(fails) >= 2:
+            break
+    return dict(function="cirq-core/cirq/circuits/circuit.py:Circuit._resolve_parameters_/_parameter_names_ along edit histories", case="resolve-after-edits",
+                bound=f"{n} seeded histories of <= 5 edits over 19 mutators / copies / additions with interleaved queries; alphabet of 15 operations, 3 of them parameterized",
+                cases=cases, distinct=cases, failures=len(fails), exhaustive=False, _fails=fails[:2])
+standin_resolve_after_edits.prop = "C10"
+
+STANDINS = [standin_sweeps, standin_resolution, standin_resolve_after_edits]
 
 
 def _replay_own(ob, seed):
